@@ -156,6 +156,9 @@ SplEvalOK(ev) ==
        /\ \A i \in DOMAIN ev.xs : EvalPost(p, ev.xs[i], ev.vals[i]) /\ EvalPost(p, ev.xs[i], ev.vals2[i])
        /\ EndOK(ev, "front", p, SupFront(SplSup(p)))
        /\ EndOK(ev, "back", p, SupBack(SplSup(p)))
+       \* third pass: an equal spline on a moved grid, built where the first one lived, evaluated at the moved abscissae
+       /\ (Has(ev, "a2") => /\ SplValid(SplOf(ev.a2)) /\ Len(ev.vals3) = Len(ev.xs2)
+                            /\ \A i \in DOMAIN ev.xs2 : EvalPost(SplOf(ev.a2), ev.xs2[i], ev.vals3[i]))
 
 SplUnOK(ev) ==
   LET a == SplOf(ev.a)
@@ -243,7 +246,8 @@ OpApplyOK(ev) ==
      /\ For("C10") => (ev.app = "ok" => SplValid(SplOf(ev.app_v)))
      /\ IF native \/ ~UsesSpl(e)
         THEN /\ For("C04") \/ For("C05") \/ For("C08") => ev.app = "ok" /\ ApplyPost(e, a, fs, SplOf(ev.app_v))
-             /\ For("C07") \/ For("C08") => ev.lf = "ok" /\ ev.lf_v = LinearVal(e, a, fs)
+             \* (the very-high-order cases, tag "hi", carry no linear form: its exact value leaves TLC's integers)
+             /\ (For("C07") \/ For("C08")) /\ ev.tag # "hi" => ev.lf = "ok" /\ ev.lf_v = LinearVal(e, a, fs)
         ELSE For("C08") =>
              IF SupHasIntervals(SplSup(a))
              THEN ThrewCode(ev, "app", "DIFFERING_GRIDS") /\ ThrewCode(ev, "lf", "DIFFERING_GRIDS")
